@@ -1,28 +1,47 @@
 import StorageModel.C03.Layered
 /-
-  C03 specification for the enlarged operation set (parent store + plain child store, schema with
-  separate symbol / key / checker names).  As in Spec.lean the entity table — now with the child
-  data next to it — is the only state; the indexes are *defined* as its image, and a write is
-  refused exactly when the resulting entity would break a constraint against the OTHER entities.
-  Nothing of the index protocol (captures, contexts, passes) appears here.
+  C03 specification for the enlarged operation set (parent store + plain child store; schema with
+  base path, separate symbol / key / checker names and a choice of registered indexes).  The entity
+  table — with the child data next to it — is the only state; the indexes are *defined* as its
+  image, and a write is refused exactly when the resulting entity would break a constraint of a
+  REGISTERED index against the OTHER entities.  Nothing of the index protocol (captures, contexts,
+  passes, registration order) appears here.
 -/
 namespace StorageModel.C03.Layered.Spec
 open StorageModel StorageModel.C03 StorageModel.C03.Layered
 
+/-- the value an index sees: the field if the index is registered, nothing otherwise -/
+def vName (sch : Schema) (e : Ent) : Bytes := if sch.regName then e.name else []
+def vAlias (sch : Schema) (e : Ent) : Bytes := if sch.regAlias then e.alias.getD [] else []
+def vRoles (sch : Schema) (e : Ent) : List Bytes := if sch.regRoles then e.roles else []
+
 structure SState where
-  base : C03.Spec.SState
+  hasEnts : Bool
+  ents : Map Id Ent
   ext : Map Id Bytes
   deriving Repr
 
-def SState.empty : SState := ⟨C03.Spec.SState.empty, []⟩
+def SState.empty : SState := ⟨false, [], []⟩
 
-def hasExt (t : SState) (id : Id) : Bool := (t.base.ents.lookup id).isSome && (t.ext.lookup id).isSome
+def hasExt (t : SState) (id : Id) : Bool := (t.ents.lookup id).isSome && (t.ext.lookup id).isSome
 
-/-- store the entity `e` under `id` unless that breaks a constraint; the child data becomes `x` -/
-def putBoth (t : SState) (id : Id) (e : Ent) (hasEnts : Bool) (x : Bytes) : Except (List Err) SState :=
-  match C03.Spec.put t.base id e hasEnts with
-  | .ok b => .ok ⟨b, t.ext.insert id x⟩
-  | .error es => .error es
+/-- some entity other than `id` currently has value `v` under `f` -/
+def heldByOther (f : Ent → Bytes) (ents : Map Id Ent) (id : Id) (v : Bytes) : Bool :=
+  ents.entries.any (fun p => decide (p.1 ≠ id) && decide (f p.2 = v))
+
+/-- the errors that "correspond" to storing entity `e` under `id` (empty list: acceptable) -/
+def violations (sch : Schema) (ents : Map Id Ent) (id : Id) (e : Ent) : List Err :=
+  (if sch.regName = true ∧ e.name = [] then [Err.nullNotAllowed] else []) ++
+  (if vName sch e ≠ [] ∧ heldByOther (vName sch) ents id (vName sch e) = true then [Err.dup] else []) ++
+  (if vAlias sch e ≠ [] ∧ heldByOther (vAlias sch) ents id (vAlias sch e) = true then [Err.dup] else []) ++
+  (if [] ∈ vRoles sch e then [Err.other] else [])
+
+/-- store the entity `e` under `id` unless that breaks a constraint; the child data becomes `x`
+    (`none`: unchanged) -/
+def put (sch : Schema) (t : SState) (id : Id) (e : Ent) (hasEnts : Bool) (x : Option Bytes) : Except (List Err) SState :=
+  match violations sch t.ents id e with
+  | [] => .ok ⟨hasEnts, t.ents.insert id e, match x with | some y => t.ext.insert id y | none => t.ext⟩
+  | v :: vs => .error (v :: vs)
 
 /-- an update of an entity with child data (through the child store, or through the parent store,
     which delegates): parent fields under the resolved checker, the child field when selected -/
@@ -31,32 +50,33 @@ def updateBoth (sch : Schema) (t : SState) (id : Id) (v : Vals) (tag : Bytes) (c
   if id = [] then .error [.other]
   else if !hasExt t id then .error [.notFound]
   else
-    match t.base.ents.lookup id with
+    match t.ents.lookup id with
     | none => .error [.notFound]
     | some old =>
-      putBoth t id (persist old v (resolveOpt sch chk)) t.base.hasEnts
-        (if tagSelected sch chk then tag else (t.ext.lookup id).getD [])
+      put sch t id (persist old v (resolveOpt sch chk)) t.hasEnts
+        (some (if tagSelected sch chk then tag else (t.ext.lookup id).getD []))
 
 def step (sch : Schema) (t : SState) : Op → Except (List Err) SState
   | .create .parent id v _ =>
-    match C03.Spec.step t.base (.create id v) with
-    | .ok b => .ok { t with base := b }
-    | .error es => .error es
+    if id = [] then .error [.other]
+    else if (t.ents.lookup id).isSome then .error [.exists]
+    else put sch t id (persistCreate v) true none
   | .create .child id v tag =>
     if id = [] then .error [.other]
     else if hasExt t id then .error [.exists]
-    else putBoth t id (persistCreate v) true tag          -- a new entity, or the plain parent entity replaced
+    else put sch t id (persistCreate v) true (some tag)     -- a new entity, or the plain parent entity replaced
   | .update .child id v tag chk => updateBoth sch t id v tag chk
   | .update .parent id v _ chk =>
     if hasExt t id then updateBoth sch t id v ((t.ext.lookup id).getD []) chk
-    else
-      match C03.Spec.step t.base (.update id v (resolveOpt sch chk)) with
-      | .ok b => .ok { t with base := b }
-      | .error es => .error es
+    else if id = [] then .error [.other]
+    else match t.ents.lookup id with
+      | none => .error [.notFound]
+      | some old => put sch t id (persist old v (resolveOpt sch chk)) t.hasEnts none
   | .delete _ id =>
-    match C03.Spec.step t.base (.delete id) with
-    | .ok b => .ok ⟨b, t.ext.erase id⟩
-    | .error es => .error es
+    if id = [] then .error [.notFound]
+    else match t.ents.lookup id with
+      | none => .error [.notFound]
+      | some _ => .ok ⟨t.hasEnts, t.ents.erase id, t.ext.erase id⟩
 
 def applyOps (sch : Schema) : SState → List Op → Nat → Except (Nat × List Err) SState
   | t, [], _ => .ok t
@@ -70,11 +90,24 @@ def txStep (sch : Schema) (t : SState) (ops : List Op) : SState × Option (List 
   | .ok t' => (t', none)
   | .error (_, es) => (t, some es)
 
-/-- the dump derived from the entity table alone (indexes: `Spec.nameIndex` etc. of Spec.lean) -/
+/-! the indexes, derived -/
+
+def uniqueIndexOf (f : Ent → Bytes) (ents : Map Id Ent) : Map Bytes Id :=
+  ents.entries.filterMap (fun p => if f p.2 ≠ [] then some (f p.2, p.1) else none)
+
+def setIndexOf (r : Ent → List Bytes) (ents : Map Id Ent) : Map Bytes (List Id) :=
+  (ents.entries.flatMap (fun p => r p.2)).map fun v =>
+    (v, (ents.entries.filter (fun p => decide (v ∈ r p.2))).map (·.1))
+
+def nameIndex (sch : Schema) (ents : Map Id Ent) : Map Bytes Id := uniqueIndexOf (vName sch) ents
+def aliasIndex (sch : Schema) (ents : Map Id Ent) : Map Bytes Id := uniqueIndexOf (vAlias sch) ents
+def rolesIndex (sch : Schema) (ents : Map Id Ent) : Map Bytes (List Id) := setIndexOf (vRoles sch) ents
+
+/-- the dump derived from the entity table alone -/
 def render (sch : Schema) (t : SState) : List Line :=
-  renderTable sch t.base.hasEnts t.base.ents t.ext ++
-  (C03.Spec.nameIndex t.base.ents).flatMap (renderUnique sch.name.sym) ++
-  (C03.Spec.aliasIndex t.base.ents).flatMap (renderUnique sch.alias.sym) ++
-  (C03.Spec.rolesIndex t.base.ents).flatMap (renderSetKey sch.roles.sym)
+  renderTable sch t.hasEnts t.ents t.ext ++
+  (nameIndex sch t.ents).flatMap (renderUnique (idxPath sch sch.name.sym)) ++
+  (aliasIndex sch t.ents).flatMap (renderUnique (idxPath sch sch.alias.sym)) ++
+  (rolesIndex sch t.ents).flatMap (renderSetKey (idxPath sch sch.roles.sym))
 
 end StorageModel.C03.Layered.Spec
